@@ -299,17 +299,25 @@ def check_line_formation(ck, ctx, lm, rule="O-form"):
         ("CRLF and blank lines", lambda t: t.replace("\n", "\r\n\r\n")),
         ("no newline at the end", lambda t: t.rstrip("\n")),
     ]
+    ref_handed = {}
     for sname, texts in SCRIPTS.items():
         try:
             ref = drop_blank(lines_of(texts))
         except (PyRaise, Raised, NonUniform, LexUnknown) as e:
             raise AnalysisError(f"line formation of the reference script `{sname}` cannot be evaluated: {e}")
+        h0 = lm.run_script(W([texts[i % len(texts)] for i in range(6)]))
+        ref_handed[sname] = (ws(list(h0[0])), h0[1])
         for vname, fn in variants:
             n += 1
             try:
                 got = drop_blank(lines_of([fn(t) for t in texts]))
                 ok = same(got, ref)
                 detail = "" if ok else f"lines {_s(got)!r} instead of {_s(ref)!r}"
+                if ok:
+                    # and the whole of parse_data (its own line loop included): the same statements reach the grammar
+                    h = lm.run_script(W([fn(texts[i % len(texts)]) for i in range(6)]))
+                    ok = same(ws(list(h[0])), ref_handed[sname][0]) and same(h[1], ref_handed[sname][1])
+                    detail = "" if ok else f"statements {_s(h[0])!r} / result {_s(h[1])!r} instead of {_s(ref_handed[sname][0])!r} / {_s(ref_handed[sname][1])!r}"
             except (PyRaise, Raised) as e:
                 ok, detail = False, f"raises {e}"
             except NonUniform as e:
@@ -447,11 +455,7 @@ def check_literals(ck, ctx, rule="O-literal"):
             for i, (text, lit) in enumerate(zip(texts, lits)):
                 # exemplar by exemplar: literals of one class need not be treated in lock step (blank counts differ)
                 try:
-                    lines, st = lm.form_lines(text)
-                    handed = []
-                    for k, ln in enumerate(lines):
-                        p, st = lm.step(st, ln, k != len(lines) - 1)
-                        handed += list(p)
+                    handed = list(lm.run_script(text)[0])
                 except (PyRaise, Raised) as e:
                     fails.append((sname, text, f"{lit}: raises {e}"))
                     break
